@@ -519,13 +519,43 @@ type snapshot struct {
 	ProgNodes, ProgMatch          []uint64
 }
 
-func (s snapshot) coq() string {
+// namer abbreviates repeated ISR / progress lists of one case through let-bindings
+// around the case term, which keeps the generated Coq files small.
+type namer struct {
+	names map[string]string
+	defs  []string
+}
+
+func (n *namer) name(prefix, term string) string {
+	if len(term) <= 4 {
+		return term
+	}
+	if v, ok := n.names[term]; ok {
+		return v
+	}
+	if n.names == nil {
+		n.names = map[string]string{}
+	}
+	v := fmt.Sprintf("%s%d", prefix, len(n.names))
+	n.names[term] = v
+	n.defs = append(n.defs, fmt.Sprintf("let %s := %s in ", v, term))
+	return v
+}
+
+func (n *namer) wrap(term string) string {
+	if len(n.defs) == 0 {
+		return term
+	}
+	return "(" + strings.Join(n.defs, "") + term + ")"
+}
+
+func (s snapshot) coq(nm *namer) string {
 	pr := make([]string, len(s.ProgNodes))
 	for i := range s.ProgNodes {
 		pr[i] = vh.Pair(vh.N(s.ProgNodes[i]), vh.N(s.ProgMatch[i]))
 	}
 	return vh.App("mkSnap", rangesCoq(s.Rows), vh.N(s.LEO), vh.N(s.HW), vh.N(s.Local), vh.N(s.Phys), vh.N(s.RMax),
-		vh.App("mkRState", vh.N(s.Role), vh.N(s.LocalNode), vh.NList(s.ISR), vh.List(pr),
+		vh.App("mkRState", vh.N(s.Role), vh.N(s.LocalNode), nm.name("zi", vh.NList(s.ISR)), nm.name("zp", vh.List(pr)),
 			vh.N(s.RLEO), vh.N(s.RHW), vh.N(s.RCkpt), vh.N(s.RRet), vh.N(s.RLocal), vh.N(s.RPhys)))
 }
 
@@ -606,6 +636,7 @@ func run(in input) vh.Result {
 
 	var steps []string
 	var obs []any
+	nm := &namer{}
 	counts := map[string]int{}
 	nextID := caseNo << 20
 	nRead, nReadNonEmpty, nDeleted, nBlocked := 0, 0, 0, 0
@@ -718,12 +749,12 @@ func run(in input) vh.Result {
 			panic("harness: unknown op " + o.K)
 		}
 		snap := takeSnapshot(cs, rig.State())
-		steps = append(steps, vh.App("mkStep", opCoq, resCoq, snap.coq()))
+		steps = append(steps, vh.App("mkStep", opCoq, resCoq, snap.coq(nm)))
 		obs = append(obs, map[string]any{"op": o.K, "res": ob, "snap": snap})
 	}
 	class := fmt.Sprintf("hist:reads=%s,nonempty=%s,deleted=%s,blocked=%s", bucket(nRead), bucket(nReadNonEmpty), bucket(nDeleted), bucket(nBlocked))
 	return vh.Result{
-		Coq:     vh.App("C10Hist", vh.List(steps)),
+		Coq:     nm.wrap(vh.App("C10Hist", vh.List(steps))),
 		Obs:     obs,
 		Class:   class,
 		Trivial: nRead == 0 && counts["apply"] == 0,
